@@ -571,7 +571,7 @@ class Engine:
             a = p.deref(operand(p, rv[4:-1])).scalar()
             return const_obj(1 - a)
         m = re.match(r'(copy|move) (.*) as (.*) \((.*)\)$', rv)
-        if m:
+        if m and m.group(2).count('(') == m.group(2).count(')'):
             # casts: integer widening / pointer coercions keep the value
             return operand(p, m.group(1) + ' ' + m.group(2))
         if rv.startswith(('copy ', 'move ', 'const ')):
